@@ -770,7 +770,8 @@ def __generate_transformation(
     child: Union[Assignment, PersistentAssignment], is_persistent: bool, count: int
 ) -> Transformation:
     expression = ASTString().render(ast=child.right)
-    result = child.left.value  # type: ignore[attr-defined]
+    # The result name is written back as VTL text: a reserved word needs its quotes
+    result = ASTString().render(ast=child.left)
     return Transformation(
         id=f"T{count}",
         expression=expression,
